@@ -18,8 +18,8 @@
 // of such steps along one application is at most
 //   S = pre_cycles * (npre + npost + 2) * sum_l ncycle^l   (<= ~400 here),
 // so   ||fl(B f) - B f||_inf <= K u ||B||_inf (1 + ||A||_inf ||B||_inf) ||f||_inf,
-// K = 64 * S (64 >= c for the row lengths generated here, incl. coarse levels being
-// denser is absorbed by the factor 8 below).  Genuine breakages of the recursion
+// K = 64 * S (64 >= c for the row lengths generated here; measured on the unchanged tree:
+// worst observed error / bound = 2e-4).  Genuine breakages of the recursion
 // change B by 1e-3 .. 1 relative; the bound is 1e-13 .. 1e-9.
 #include <amgcl/amg.hpp>
 #include <amgcl/coarsening/runtime.hpp>
@@ -121,7 +121,7 @@ static Csr<double> case_matrix(Rng &r, int nmin, int nmax, std::string &fam, J &
 
 // number of smoothing / correction steps along one application (see the header comment)
 static double step_count(const Cfg &c, size_t L) { double s = 0, w = 1; for (size_t l = 0; l < L; ++l) { s += w; w *= c.ncycle; } return c.pre_cycles * (c.npre + c.npost + 2.0) * s; }
-static double action_bound(const Cfg &c, size_t L, double normA, double normB) { return 8 * 64 * step_count(c, L) * U * normB * (1 + normA * normB); }
+static double action_bound(const Cfg &c, size_t L, double normA, double normB) { return 64 * step_count(c, L) * U * normB * (1 + normA * normB); }
 
 static bool check_finite(Case &c, const LD &B, const Cfg &cfg) {
     bool ok = vf::all_finite(B);
@@ -152,7 +152,7 @@ static LD ref_cycle(const std::vector<Lev> &L, size_t l, const Cfg &c) {
 }
 
 static void sub_cycle() {
-    long cells = NCOARS * NRELAX, nmat = vf::tier(2, BS == 1 ? 14 : 5), N = nmat * cells, stride = vf::opt_int("stride", 1);
+    long cells = NCOARS * NRELAX, nmat = vf::tier(BS == 1 ? 3 : 2, BS == 1 ? 14 : 5), N = nmat * cells, stride = vf::opt_int("stride", 1);
     for (long idx = 0; idx < N; ++idx) {
         if (!vf::selected("cycle", idx) || idx % stride) continue;
         Rng r(vf::case_seed("cycle", idx)); int ci = (int)(idx % NCOARS), ri = (int)((idx / NCOARS) % NRELAX); long rep = idx / cells;
@@ -223,12 +223,14 @@ static void sub_cycle() {
 //---------------------------------------------------------------------------
 #if VF_BS == 1
 static void sub_spd() {
-    long nmat = vf::tier(2, 20), N = nmat * 56, stride = vf::opt_int("stride", 1);
+    long nmat = vf::tier(3, 20), N = nmat * 56, stride = vf::opt_int("stride", 1);
     for (long idx = 0; idx < N; ++idx) {
         if (!vf::selected("spd", idx) || idx % stride) continue;
         Rng r(vf::case_seed("spd", idx)); int ci = (int)(idx % 4), ri = (int)((idx / 4) % 7), ncyc = 1 + (int)((idx / 28) % 2); long rep = idx / 56;
         std::string fam; J md; Csr<double> A = vf::random_spd_mmatrix(r, 50, rep % 5 == 4 ? 300 : 160, fam, &md); size_t n = A.n;
         Cfg cfg = draw(r, COARS[ci], RELAX9[ri], rep >= 1, true, ncyc);
+        int unit = rep >= 1 ? (int)r.pick(std::vector<long>{0, 0, 0, 30, -30, -60, 70, -100}) : 0;     // the same problem in other physical units (still an SPD M-matrix)
+        if (unit) { A = vf::scaled_pow2(A, unit); md.n("scaled_by_pow2", unit); }
         Case c("spd", idx, J().o("matrix", md).o("cfg", cfg.desc));
         try {
             std::shared_ptr<AMG> amg = build(A, cfg.p); AMG &a = *amg; size_t nl = nlevels(a);
@@ -260,20 +262,22 @@ static void sub_spd() {
 // scaling: monitor 5
 //---------------------------------------------------------------------------
 static void sub_scaling() {
-    long cells = NCOARS * NRELAX_SCALING, nmat = vf::tier(1, BS == 1 ? 8 : 3), N = nmat * cells, stride = vf::opt_int("stride", 1);
+    long cells = NCOARS * NRELAX_SCALING, nmat = vf::tier(BS == 1 ? 2 : 1, BS == 1 ? 8 : 3), N = nmat * cells, stride = vf::opt_int("stride", 1);
     for (long idx = 0; idx < N; ++idx) {
         if (!vf::selected("scaling", idx) || idx % stride) continue;
         Rng r(vf::case_seed("scaling", idx)); int ci = (int)(idx % NCOARS), ri = (int)((idx / NCOARS) % NRELAX_SCALING); long rep = idx / cells;   // RELAX9[0 .. NRELAX_SCALING-1]: everything but ILUT
         std::string fam; J md; Csr<double> A = case_matrix(r, 40, 140, fam, md); size_t n = A.n;
         Cfg cfg = draw(r, COARS[ci], RELAX9[ri], rep >= 1, false);
-        std::vector<int> ks = {2, -2}; ks.push_back((int)r.pick(std::vector<long>{1, -1, 3, -3})); ks.push_back((int)r.pick(std::vector<long>{10, -10, 9, -9, 40, -40}));
+        // moderate exponents (even and odd) and extreme ones: 2^-60 .. 2^-120 puts every coefficient below machine epsilon,
+        // 2^60 .. 2^120 far above 1/epsilon; squares and triple products of the entries still stay inside the double range
+        std::vector<int> ks = {2, -2}; ks.push_back((int)r.pick(std::vector<long>{1, -1, 3, -3, 10, -10, 9, -9, 40, -40})); ks.push_back((int)r.pick(std::vector<long>{-60, -60, -75, -120})); ks.push_back((int)r.pick(std::vector<long>{60, 77, 120}));
         Case c("scaling", idx, J().o("matrix", md).o("cfg", cfg.desc).arr("k", ks));
         try {
             std::shared_ptr<AMG> a0 = build(A, cfg.p); LD B0 = extractB(*a0, n); if (!check_finite(c, B0, cfg)) continue;
             for (int k : ks) { Csr<double> Ak = vf::scaled_pow2(A, k); std::shared_ptr<AMG> ak = build(Ak, cfg.p); LD Bk = extractB(*ak, n);
                 for (size_t j = 0; j < n; ++j) for (size_t i = 0; i < n; ++i) Bk(i, j) = std::ldexp((double)Bk(i, j), k);
                 bool same = vf::bitwise_equal(B0, Bk); double df = 0; if (!same) { LD Df = B0 - Bk; df = (double)(vf::maxabs(Df) / vf::maxabs(B0)); }
-                c.check(same, std::string("scaling:not-exact:") + (k % 2 ? "odd" : "even") + ":" + cfg.coars + "/" + cfg.relax, "B(2^k A) is not 2^-k B(A) bitwise", J().n("k", k).n("rel_diff", df).s("levels0", sizes(*a0)).s("levelsk", sizes(*ak))); }
+                c.check(same, std::string("scaling:not-exact:") + (k <= -50 ? "coefficients-below-epsilon" : k >= 50 ? "coefficients-above-1/epsilon" : "moderate") + ":" + cfg.coars + "/" + cfg.relax, "B(2^k A) is not 2^-k B(A) bitwise", J().n("k", k).n("rel_diff", df).s("levels0", sizes(*a0)).s("levelsk", sizes(*ak))); }
             if (nlevels(*a0) >= 2) c.nontrivial();
             vf::obs_add("cells_scaling", cfg.coars + "/" + cfg.relax);
         } catch (const std::exception &e) { c.fail("exception:" + cfg.coars + "/" + cfg.relax, e.what()); }
